@@ -30,9 +30,11 @@ SInl == SStruct("Inl", <<9>>, <<Emb(F("In", "In", SInner)), F("z", "Z", S("bool"
 SArr16 == SStruct("Arr16", <<10>>, <<F("pair", "Pair", SArr(2, S("u16")))>>)
 SGroup == SStruct("Group", <<3>>, <<F("members", "Members", SSlice(SPtr(SInner))), Opt(F("leader", "Leader", SPtr(SInner)))>>)
 SDeep == SStruct("Deep", <<11>>, <<F("sh", "Sh", SIface(<<SGroup, SCircle>>))>>)
+\* omitempty on a pointer field: the key is left out for the nil pointer only (a pointer to a zero value is a value and is written)
+SOmitPtrs == SStruct("OmitPtrs", <<12>>, <<Opt(Omit(F("p", "P", SPtr(SInner)))), F("z", "Z", S("u8"))>>)
 
 Types == << [id |-> "Basic", s |-> SBasic], [id |-> "Nested", s |-> SNested], [id |-> "Slices", s |-> SSlices],
             [id |-> "Maps", s |-> SMaps], [id |-> "Ifaces", s |-> SIfaces], [id |-> "ByteArrs", s |-> SByteArrs],
             [id |-> "Big", s |-> SBig], [id |-> "Embed", s |-> SEmbed], [id |-> "Inl", s |-> SInl],
-            [id |-> "Arr16", s |-> SArr16], [id |-> "Deep", s |-> SDeep] >>
+            [id |-> "Arr16", s |-> SArr16], [id |-> "Deep", s |-> SDeep], [id |-> "OmitPtrs", s |-> SOmitPtrs] >>
 ===============================================================================
